@@ -310,6 +310,28 @@ abbrev CurRes := Option (Option (List UInt8 × List UInt8))
   | some e => pure e
   | none => throw (Fail.err RErr.cursor)
 
+/-! ### buffers whose content is not represented (a struct with a checked `Deref` to `&[u8]` of length `len`): slicing and
+    copying are reduced to their bounds checks, which is where they can panic -/
+
+/-- `&buf[..h]` -/
+@[inline] def ghostTo (len h : Nat) : M Nat :=
+  if h ≤ len then pure h else throw (Fail.panic "range end index out of range for slice")
+/-- `&buf[l..]` -/
+@[inline] def ghostFrom (len l : Nat) : M Nat :=
+  if l ≤ len then pure (len - l) else throw (Fail.panic "range start index out of range for slice")
+/-- `&buf[l..h]` -/
+@[inline] def ghostRange (len l h : Nat) : M Nat :=
+  if l ≤ h ∧ h ≤ len then pure (h - l) else throw (Fail.panic "slice index out of range")
+/-- `dst.copy_from_slice(src)`: panics unless the lengths are equal -/
+@[inline] def copyLenCheck (dst src : Nat) : M Unit :=
+  if dst = src then pure () else throw (Fail.panic "source slice length does not match destination slice length")
+/-- `bytemuck::cast_slice(_mut)::<u8, T>` on a buffer aligned for `T`: the number of `T`; panics on a length that is not a multiple of the size -/
+@[inline] def castSliceLen (len sz : Nat) : M Nat :=
+  if len % sz = 0 then pure (len / sz) else throw (Fail.panic "cast_slice: output slice would have slop")
+/-- `arr[i] = v` -/
+@[inline] def idxCheck (count i : Nat) : M Unit :=
+  if i < count then pure () else throw (Fail.panic "index out of bounds")
+
 /-- what a user merge function hands back: `Cow::Owned` or `Cow::Borrowed` bytes -/
 inductive Cow where
   | owned (b : List UInt8)
